@@ -21,7 +21,8 @@ EXPLANATION = (
     'enumerated), all registered names are upper case; (C08.5) registration writes the module-level table under the '
     'function\'s name and every evaluator copies the table in its constructor body; (C08.6) every module that registers '
     'functions is imported by the package; (C08.7) the wrapper preserves the signature (functools.wraps), arguments are '
-    'bound by signature.')
+    'bound by signature.'
+    ' (C08.5) also: two evaluators constructed (constructor interpreted as written, one world) around a registration: the later one sees the new function, no two evaluators share a table object.')
 NOT_DECIDED = 'equality of results across spellings at the value level'
 TRUSTED = ['typing.NewType/Union semantics of the annotation aliases', 'functools.wraps makes inspect.signature see the wrapped signature']
 
